@@ -285,3 +285,39 @@ fn c01_drain_order() {
     kani::cover!(k == 1);
     core::mem::forget((msgs, p, keep, attr));
 }
+
+//@ id=C01 tier=quick cap=1200 mem=30
+//@ fn: peer_tx::PendingTx::buffer_messages, PendingTx::unreach, PendingTx::drain_messages
+//@ bound: one pre-built message buffered (initial dump stand-in), then one withdrawal queued under a symbolic destination id, End-of-RIB scheduled or not; one drain; unwind 6
+//@ desc: wire order = history order: everything buffered by the initial dump leaves BEFORE withdrawals queued afterwards (otherwise a route withdrawn before the first flush would be re-announced by the dump); End-of-RIB is last; the queue is empty afterwards
+#[kani::proof]
+#[kani::unwind(6)]
+fn c01_drain_buffered_first() {
+    let mut p = PendingTx::new(false);
+    let b = Box::into_raw(Box::new([bgp::Message::Keepalive])) as *mut bgp::Message;
+    p.buffer_messages(unsafe { Vec::from_raw_parts(b, 1, 1) });
+    let id: u32 = kani::any();
+    p.unreach(id, prefix(false), 0);
+    let eor: bool = kani::any();
+    if eor {
+        p.schedule_eor();
+    }
+    let msgs = p.drain_messages(Family::IPV4);
+    assert!(p.is_empty());
+    let n = msgs.len();
+    assert!(n == if eor { 3 } else { 2 });
+    assert!(matches!(&msgs[0], bgp::Message::Keepalive));
+    match &msgs[1] {
+        bgp::Message::Update(bgp::Update::Unreach { family, entries }) => {
+            assert!(*family == Family::IPV4);
+            assert!(entries.len() == 1 && is_prefix(&entries[0].nlri, false));
+        }
+        _ => assert!(false),
+    }
+    if eor {
+        assert!(matches!(&msgs[2], bgp::Message::Update(bgp::Update::EndOfRib(_))));
+    }
+    kani::cover!(eor);
+    kani::cover!(!eor);
+    core::mem::forget((msgs, p));
+}
